@@ -51,7 +51,7 @@ def side_table(f):
 
 
 def pq_table(f):
-    """{(margin sign, side): sign of the priority} for a positive incoming priority"""
+    """{(margin sign, side): set of signs of the returned priority} for a positive incoming priority"""
     dl = f.arg_by_name('distance')
     ml = f.arg_by_name('margin')
     sl = f.arg_by_name('side')
@@ -59,26 +59,10 @@ def pq_table(f):
         return None
     out = {}
     for ms in ('neg', 'pos'):
-        env = {'distance': 'pos', 'margin': ms}
-        # evaluate each arm of the match on `side`
-        for b in f.live_blocks():
-            sw = paths.switch_at(f, b)
-            if sw is None:
-                continue
-            d = f.term(sw['discr'])
-            if d[0] == 'discr' and strip(d[1])[0] == 'arg' and strip(d[1])[1] == sl:
-                listed = {int(v): t for v, t in sw['targets']}
-                arms = dict(listed)
-                if len(listed) == 1:
-                    arms[1 - list(listed)[0]] = sw['otherwise']
-                for v, tgt in arms.items():
-                    if v not in (0, 1):
-                        continue
-                    rets = [(k, t) for rb, k, t in paths.ret_assigns(f) if rb in f.reachable(tgt)]
-                    sg = set()
-                    for k, t in rets:
-                        sg.add(absint.sign_of(t, env))
-                    out[(ms, 'Left' if v == 0 else 'Right')] = sg
+        for sv, sname in ((0, 'Left'), (1, 'Right')):
+            env = {'distance': 'pos', 'margin': ms, 'disc:side': sv}
+            outs, forks = absint.explore(f, env)
+            out[(ms, sname)] = {absint.sign_of(t, env) for k, t in outs}
     return out
 
 
